@@ -613,3 +613,12 @@ def run(ctx):
         ctx.inst("R02.2", "reply-updates-position:%s" % ckey, not bad and not mustbad, rst.fn.where(),
                  "%d success paths; %s" % (len(rst.ok_paths()), "each stores or removes the position" if not bad and not mustbad else
                     "a success path leaves the stored position untouched although the vAMM swap is committed"))
+
+
+    # ---------------------------------------------------------------- R02.7
+    # "for every vAMM": a record belongs to the market whose swap sized it only if its storage key carries that market -
+    # every position store / remove hashes (the acting vamm, the acting trader).  A key that drops the vAMM bytes merges
+    # one trader's records on two markets (round-10 seed C02m).  Same rule as R10.1.
+    from .c10 import poskey_instances
+    ctx.rule("R02.7", "every position store / remove is keyed by the acting (vamm, trader) pair", 9)
+    poskey_instances(ctx, "R02.7")
